@@ -2,7 +2,7 @@
 import os
 
 import vlib
-from ivf_common import start_models, finish_models, sim_vectors, par_tlc_trace, SubCtx
+from ivf_common import start_models, finish_models, sim_vectors, par_tlc_trace, SubCtx, Job
 
 STREAM_PREDS = ("Bos", "TagsSecond", "SeqFromZero", "LastPageEos", "GranuleExact", "GranuleMonotone",
                 "PacketLengths", "PacketsRoundTrip", "HeaderFields")
@@ -17,16 +17,11 @@ def run_ogg(ctx):
              [("Ogg_MC", "Ogg_MCt"), ("Ogg_MC", "Ogg_MC3"), ("Ogg_MC", "Ogg_MCtr")]
     mc = start_models(ctx, models, workers=4)
     # 1b. the as-is variant (legacy writer on a plain io.Writer): TLC itself must exhibit the missing EOS
-    asis = vlib.run_tlc(SubCtx(ctx, "asis"), "Ogg_MC", "Ogg_asis", workers=1, quiet_ok=True, timeout=120)
-    ctx.cov["asis_model_rc"] = asis.rc
-    ctx.cov["asis_model_counterexample"] = "Invariant ModelEos is violated" in asis.stdout
-    ctx.cov["states"] += asis.distinct
-    ctx.cov["transitions"] += asis.generated
-    if not ctx.cov["asis_model_counterexample"]:
-        ctx.notes.append("model drift: the as-is model did not exhibit the missing-EOS counterexample")
+    asis_ctx = SubCtx(ctx, "asis")
+    asis_job = Job(lambda: vlib.run_tlc(asis_ctx, "Ogg_MC", "Ogg_asis", workers=1, quiet_ok=True, timeout=300))
 
     # 2. vectors from TLC's simulator over the full alphabet (all TOC bytes, boundary and random sizes, 1-3 tracks)
-    nvec = 300 if quick else 6000
+    nvec = 250 if quick else 5000
     vecs = sim_vectors(ctx, "Ogg_MC", "Ogg_Sim" if quick else "Ogg_Simt", nvec, 2 if quick else 8)
     for i, v in enumerate(vecs):
         v["id"] = i
@@ -43,6 +38,14 @@ def run_ogg(ctx):
     ctx.viol = par_tlc_trace(ctx, "Ogg_Trace", "Ogg_Trace", trace, 2 if quick else 8)
     ctx.log("TLC trace Ogg_Trace: %d lines, %d violation records" % (ctx.cov.get("trace_lines_validated", 0), len(ctx.viol)))
     finish_models(ctx, mc)
+    asis = asis_job.result()
+    ctx.cov["tlc_runs"] += asis_ctx.cov["tlc_runs"]
+    ctx.cov["asis_model_rc"] = asis.rc
+    ctx.cov["asis_model_counterexample"] = "Invariant ModelEos is violated" in asis.stdout
+    ctx.cov["states"] += asis.distinct
+    ctx.cov["transitions"] += asis.generated
+    if not ctx.cov["asis_model_counterexample"]:
+        ctx.notes.append("model drift: the as-is model did not exhibit the missing-EOS counterexample")
 
     lines = vlib.read_ndjson(trace)
     pages = [l for l in lines if l["ev"] == "page"]
